@@ -173,6 +173,48 @@ class Check:
                                       engine=engine))
         return out
 
+    def note(self, text):
+        self.extra.setdefault('notes', []).append(text)
+
+    def map_fork(self, fn, items, workers=None):
+        """fn(item) -> JSON-serialisable result, evaluated in forked workers (copy-on-write state)"""
+        import os as _os
+        import json as _json
+        n = len(items)
+        if n == 0:
+            return []
+        W = max(1, min(workers or int(_os.environ.get('VERIF_JOBS', '14')), n))
+        results = [None] * n
+        pipes = []
+        sys.stdout.flush()
+        for w in range(W):
+            r_, w_ = _os.pipe()
+            pid = _os.fork()
+            if pid == 0:
+                _os.close(r_)
+                out = []
+                for i in range(w, n, W):
+                    try:
+                        out.append([i, fn(items[i])])
+                    except BaseException as e:      # noqa
+                        out.append([i, {'status': 'gap', 'why': 'worker: %r' % (e,), 'hits': [], 'fn': str(items[i][-1]),
+                                        'rel': str(items[i][0])}])
+                with _os.fdopen(w_, 'w') as f:
+                    f.write(_json.dumps(out, default=str))
+                _os._exit(0)
+            _os.close(w_)
+            pipes.append((pid, r_))
+        for pid, r_ in pipes:
+            with _os.fdopen(r_) as f:
+                data = f.read()
+            _os.waitpid(pid, 0)
+            try:
+                for i, res in _json.loads(data or '[]'):
+                    results[i] = res
+            except ValueError:
+                pass
+        return results
+
     def witness(self, name, constraints, timeout_ms=30000, engine='z3'):
         """vacuity twin: constraints must be satisfiable"""
         self.witness_total += 1
